@@ -277,115 +277,85 @@ Proof.
   destruct (i_blob i), raw, env; destruct (get_keyspec i); reflexivity.
 Qed.
 
-Lemma gen_signature_n_sig n i k same rf :
-  fst (gen_signature_n n i k) = RSig same rf -> n_gs n = false /\ gen_signature_n n i k = gen_signature i k.
+Lemma gen_signature_n_res n i k :
+  (n_gs n = false /\ gen_signature_n n i k = gen_signature i k) \/
+  (n_gs n = true /\ exists e, fst (gen_signature_n n i k) = RErr e).
 Proof.
-  unfold gen_signature_n. destruct (n_gs n); [|auto].
-  destruct (i_mt_ok i); cbn; [|discriminate].
-  destruct (encode_keyspec k), (hash_of_keyspec k), (alg_of_keyspec k); cbn; discriminate.
+  unfold gen_signature_n. destruct (n_gs n); [right; split; [reflexivity|]|left; auto].
+  destruct (i_mt_ok i); cbn; [|eauto].
+  destruct (encode_keyspec k), (hash_of_keyspec k), (alg_of_keyspec k); cbn; eauto.
 Qed.
 
-(* a signature never rests on a nil answer: with the nil answers the signer returns a
-   signature only where it does without them, and then no answer it used was nil *)
+(* with nil answers the signer does what it does without them, or returns an error *)
+Theorem nil_lift n i :
+  (nil_used n i = false /\ model_n n i = model i) \/ (exists e, o_res (model_n n i) = RErr e).
+Proof.
+  unfold model_n, model, nil_used, get_keyspec_n, gen_envelope_n.
+  destruct (n_meta n); [right; cbn; eauto|]. cbn [orb].
+  destruct (i_meta i) as [|raw env]; [left; split; reflexivity|].
+  destruct (i_blob i); cbn [andb].
+  - destruct (n_dk n); [right; cbn; eauto|].
+    destruct (get_keyspec i) as [e|k]; [right; cbn; eauto|].
+    destruct raw.
+    + destruct (gen_signature_n_res n i k) as [[Hg E]|[Hg [e E]]].
+      * left. rewrite Hg, E. split; reflexivity.
+      * right. destruct (gen_signature_n n i k) as [r q]. cbn in *. eauto.
+    + destruct env; [|right; cbn; eauto].
+      destruct (n_ge n); [right; cbn; eauto|]. left. split; reflexivity.
+  - destruct raw.
+    + destruct (n_dk n); [right; cbn; eauto|].
+      destruct (get_keyspec i) as [e|k]; [right; cbn; eauto|].
+      destruct (gen_signature_n_res n i k) as [[Hg E]|[Hg [e E]]].
+      * left. rewrite Hg, E. split; reflexivity.
+      * right. destruct (gen_signature_n n i k) as [r q]. cbn in *. eauto.
+    + destruct env; [|right; cbn; eauto].
+      destruct (n_ge n); [right; cbn; eauto|]. left. split; reflexivity.
+Qed.
+
+(* a signature never rests on a nil answer *)
 Theorem nil_sig n i same rf :
   o_res (model_n n i) = RSig same rf ->
   nil_used n i = false /\ model_n n i = model i.
 Proof.
-  unfold model_n, model, nil_used, get_keyspec_n, gen_envelope_n, nil_deref.
-  destruct (n_meta n).
-  { destruct (i_blob i); [|discriminate].
-    destruct (n_dk n); [discriminate|]. destruct (get_keyspec i); discriminate. }
-  cbn [orb].
-  destruct (i_meta i) as [|raw env]; [discriminate|].
-  destruct (i_blob i); cbn [andb].
-  - destruct (n_dk n); [discriminate|].
-    destruct (get_keyspec i) as [e|k]; [discriminate|].
-    destruct raw.
-    + destruct (gen_signature_n n i k) as [r q] eqn:G. cbn. intros H.
-      destruct (gen_signature_n_sig n i k same rf) as [Hg E]; [rewrite G; exact H|].
-      rewrite Hg. rewrite <- E, G. split; reflexivity.
-    + destruct env; [|discriminate].
-      destruct (n_ge n); [discriminate|]. intros _. split; reflexivity.
-  - destruct raw.
-    + destruct (n_dk n); [discriminate|].
-      destruct (get_keyspec i) as [e|k]; [discriminate|].
-      destruct (gen_signature_n n i k) as [r q] eqn:G. cbn. intros H.
-      destruct (gen_signature_n_sig n i k same rf) as [Hg E]; [rewrite G; exact H|].
-      rewrite Hg. rewrite <- E, G. split; reflexivity.
-    + destruct env; [|discriminate].
-      destruct (n_ge n); [discriminate|]. intros _. split; reflexivity.
+  intros H. destruct (nil_lift n i) as [L|[e E]]; [exact L|congruence].
 Qed.
 
-Lemma any_nil_false n : any_nil n = false -> n = no_nils.
-Proof.
-  destruct n as [a b c d]. unfold any_nil. cbn. destruct a, b, c, d; cbn; try discriminate. reflexivity.
-Qed.
-
-(* the signer panics only when a command answered (nil, nil) *)
-Theorem panic_only_on_nil n i : o_res (model_n n i) = RPanic -> any_nil n = true.
-Proof.
-  intros H. destruct (any_nil n) eqn:A; [reflexivity|].
-  apply any_nil_false in A. subst n. rewrite model_n_no_nils in H.
-  exfalso. exact (no_panic i H).
-Qed.
-
+(* C18_total over nil answers too *)
 Theorem total_n n i :
-  (exists same rf, o_res (model_n n i) = RSig same rf) \/ (exists e, o_res (model_n n i) = RErr e) \/
-  (o_res (model_n n i) = RPanic /\ any_nil n = true).
+  o_res (model_n n i) <> RPanic /\
+  ((exists same rf, o_res (model_n n i) = RSig same rf) \/ (exists e, o_res (model_n n i) = RErr e)).
 Proof.
-  destruct (o_res (model_n n i)) eqn:R; eauto.
-  right. right. split; [reflexivity|]. apply (panic_only_on_nil n i R).
+  destruct (nil_lift n i) as [[_ E]|[e E]].
+  - rewrite E. apply total_both.
+  - rewrite E. split; [discriminate|eauto].
 Qed.
 
-(* ... and it DOES panic: each of the four commands, when the signer calls it *)
-Definition nil_witness (blob raw : bool) : input :=
-  mk_input blob "application/jose+json" true "key1" "m" "sha256:aa" 5 [("k", "v")]
-           (MCaps raw (negb raw)) (DKAns "key1" "EC-256") GSErr GEErr.
+(* a nil answer of a command the signer calls is an error, whatever the other answers *)
+Theorem nil_meta_error n i : n_meta n = true -> model_n n i = mk_obs (RErr ENilMeta) None 0.
+Proof. intros H. unfold model_n. rewrite H. reflexivity. Qed.
 
-Theorem nil_answer_refuted :
-  (forall blob raw, o_res (model_n (mk_nils true false false false) (nil_witness blob raw)) = RPanic) /\
-  (forall blob, o_res (model_n (mk_nils false true false false) (nil_witness blob true)) = RPanic) /\
-  (forall blob, o_res (model_n (mk_nils false false true false) (nil_witness blob true)) = RPanic) /\
-  (forall blob, o_res (model_n (mk_nils false false false true) (nil_witness blob false)) = RPanic).
-Proof.
-  repeat split; intros; repeat match goal with b : bool |- _ => destruct b end; vm_compute; reflexivity.
-Qed.
-
-(* when exactly: the command is reached *)
-Theorem nil_meta_panics n i :
-  n_meta n = true ->
-  (i_blob i = false -> o_res (model_n n i) = RPanic) /\
-  (i_blob i = true -> n_dk n = false -> forall k, get_keyspec i = inr k -> o_res (model_n n i) = RPanic) /\
-  (i_blob i = true -> n_dk n = false -> forall e, get_keyspec i = inl e -> o_res (model_n n i) = RErr e).
-Proof.
-  intros Hm. unfold model_n, get_keyspec_n. rewrite Hm. repeat split.
-  - intros ->. reflexivity.
-  - intros -> -> k ->. reflexivity.
-  - intros -> -> e ->. reflexivity.
-Qed.
-
-Theorem nil_dk_panics n i raw env :
+Theorem nil_dk_error n i raw env :
   n_meta n = false -> i_meta i = MCaps raw env -> n_dk n = true ->
-  i_blob i = true \/ raw = true -> o_res (model_n n i) = RPanic.
+  i_blob i = true \/ raw = true -> model_n n i = mk_obs (RErr ENilDK) None 0.
 Proof.
   intros Hm M Hd H. unfold model_n, get_keyspec_n. rewrite Hm, M, Hd.
   destruct (i_blob i); [reflexivity|]. destruct H as [H| ->]; [discriminate|reflexivity].
 Qed.
 
-Theorem nil_ge_panics n i :
+Theorem nil_ge_error n i :
   n_meta n = false -> i_meta i = MCaps false true -> n_ge n = true ->
   (i_blob i = true -> n_dk n = false /\ exists k, get_keyspec i = inr k) ->
-  o_res (model_n n i) = RPanic.
+  o_res (model_n n i) = RErr ENilGE.
 Proof.
   intros Hm M Hg H. unfold model_n, get_keyspec_n, gen_envelope_n. rewrite Hm, M, Hg.
   destruct (i_blob i); [|reflexivity].
   destruct (H eq_refl) as [-> [k ->]]. reflexivity.
 Qed.
 
-Theorem nil_gs_panics n i env k :
+Theorem nil_gs_error n i env k :
   n_meta n = false -> i_meta i = MCaps true env -> n_dk n = false -> get_keyspec i = inr k ->
   n_gs n = true -> i_mt_ok i = true ->
-  o_res (model_n n i) = RPanic /\ o_gs_req (model_n n i) <> None.
+  o_res (model_n n i) = RErr ENilGS /\ o_gs_req (model_n n i) <> None.
 Proof.
   intros Hm M Hd G Hg Hok. unfold model_n, get_keyspec_n, gen_signature_n. rewrite Hm, M, Hd, G, Hg, Hok.
   destruct (get_keyspec_inr i k G) as [ks [_ D]].
@@ -393,15 +363,61 @@ Proof.
   destruct (i_blob i); cbn; split; try reflexivity; discriminate.
 Qed.
 
-(* the oracle with nil answers *)
-Theorem model_n_spec_ok n i :
-  wf i = true -> o_res (model_n n i) <> RPanic -> spec_ok_n n i (model_n n i) = true.
+Theorem nil_signature : forall n i same rf,
+  o_res (model_n n i) = RSig same rf ->
+  o_res (model i) = RSig same rf /\ model_n n i = model i /\
+  n_meta n = false /\
+  (forall env, i_meta i = MCaps true env -> n_dk n = false /\ n_gs n = false) /\
+  (forall env, i_meta i = MCaps false env -> n_ge n = false /\ (i_blob i = true -> n_dk n = false)).
 Proof.
-  intros W NP. unfold spec_ok_n.
-  destruct (o_res (model_n n i)) as [same rf|e|] eqn:R.
-  - destruct (nil_sig n i same rf R) as [U E]. rewrite U. rewrite E. rewrite (model_spec_ok i W). reflexivity.
-  - unfold spec_ok. rewrite R. reflexivity.
-  - contradiction.
+  intros n i same rf H. destruct (nil_sig n i same rf H) as [U E].
+  split; [rewrite <- E; exact H|]. split; [exact E|].
+  unfold nil_used in U. apply orb_false_iff in U. destruct U as [Um U]. split; [exact Um|].
+  split; intros env M; rewrite M in U; apply orb_false_iff in U; destruct U as [U1 U2]; split; try assumption.
+  intros B. rewrite B in U2. exact U2.
+Qed.
+
+Theorem nil_answer_error : forall n i,
+  (n_meta n = true -> model_n n i = mk_obs (RErr ENilMeta) None 0) /\
+  (forall raw env, n_meta n = false -> i_meta i = MCaps raw env -> n_dk n = true ->
+     i_blob i = true \/ raw = true -> model_n n i = mk_obs (RErr ENilDK) None 0) /\
+  (forall env k, n_meta n = false -> i_meta i = MCaps true env -> n_dk n = false -> get_keyspec i = inr k ->
+     n_gs n = true -> i_mt_ok i = true -> o_res (model_n n i) = RErr ENilGS /\ o_gs_req (model_n n i) <> None) /\
+  (n_meta n = false -> i_meta i = MCaps false true -> n_ge n = true ->
+     (i_blob i = true -> n_dk n = false /\ exists k, get_keyspec i = inr k) -> o_res (model_n n i) = RErr ENilGE).
+Proof.
+  intros n i. split; [apply nil_meta_error|]. split; [intros; eapply nil_dk_error; eassumption|].
+  split; [intros; eapply nil_gs_error; eassumption|]. apply nil_ge_error.
+Qed.
+
+(* before fix 0b937c8: each of the four commands, when the signer called it, panicked it *)
+Definition nil_witness (blob raw : bool) : input :=
+  mk_input blob "application/jose+json" true "key1" "m" "sha256:aa" 5 [("k", "v")]
+           (MCaps raw (negb raw)) (DKAns "key1" "EC-256") GSErr GEErr.
+
+Theorem nil_answer_v0_refuted :
+  (forall blob raw, o_res (model_n_v0 (mk_nils true false false false) (nil_witness blob raw)) = RPanic) /\
+  (forall blob, o_res (model_n_v0 (mk_nils false true false false) (nil_witness blob true)) = RPanic) /\
+  (forall blob, o_res (model_n_v0 (mk_nils false false true false) (nil_witness blob true)) = RPanic) /\
+  (forall blob, o_res (model_n_v0 (mk_nils false false false true) (nil_witness blob false)) = RPanic) /\
+  (forall i, model_n_v0 no_nils i = model i).
+Proof.
+  split; [intros [|] [|]; vm_compute; reflexivity|].
+  split; [intros [|]; vm_compute; reflexivity|].
+  split; [intros [|]; vm_compute; reflexivity|].
+  split; [intros [|]; vm_compute; reflexivity|].
+  intros i. unfold model_n_v0, model, get_keyspec_v0, gen_signature_v0, no_nils. cbn.
+  destruct (i_meta i) as [|raw env]; [reflexivity|].
+  destruct (i_blob i), raw, env; destruct (get_keyspec i); reflexivity.
+Qed.
+
+(* the oracle with nil answers *)
+Theorem model_n_spec_ok n i : wf i = true -> spec_ok_n n i (model_n n i) = true.
+Proof.
+  intros W. unfold spec_ok_n.
+  destruct (nil_lift n i) as [[U E]|[e E]].
+  - rewrite U, E, (model_spec_ok i W). destruct (o_res (model i)); reflexivity.
+  - unfold spec_ok. rewrite E. reflexivity.
 Qed.
 
 Theorem spec_n_sig_accepts n i same rf o1 o2 :
@@ -433,7 +449,7 @@ Proof.
     repeat match goal with H : String.eqb _ _ = true |- _ => apply String.eqb_eq in H end.
     repeat match goal with H : opt_eqb alg_eqb _ _ = true |- _ => apply opt_alg_eqb_eq in H end.
     match goal with H : Z.eqb _ _ = true |- _ => apply Z.eqb_eq in H end.
-    match goal with H : ann_subset _ _ = true |- _ => apply ann_subset_spec in H end.
+    match goal with H : ann_subset _ _ = true |- _ => pose proof (proj1 (ann_subset_spec _ _) H) end.
     repeat (split; [solve [reflexivity | assumption | congruence]|]). assumption.
   - destruct env; [|discriminate]. intros H. right.
     apply andb_true_iff in H. destruct H as [H _]. apply andb_true_iff in H. destruct H as [Hs He].
